@@ -90,7 +90,18 @@ def main():
     elif not args.no_build:
         problems = coq.lint(pid)
         obligations.append(("lint:no-admitted-no-axioms", not problems, "; ".join(problems[:5])))
-        r = coq.build_props(pid, clean_cone=(args.tier == "thorough"))
+        # in-tree incremental build (case files are evaluated against this tree) ...
+        r = coq.build_props(pid)
+        extra = [m.replace(".", "/") + ".vo" for m in getattr(P, "IMPORTS", []) + getattr(P, "COQ_EXTRA", [])]
+        if r["ok"] and extra:
+            okx, outx = coq.make(extra)
+            if not okx:
+                obligations.append(("build:driver-imports", False, " ".join(outx.split())[-300:]))
+        clean = None
+        if args.tier == "thorough" and r["ok"]:
+            # ... and, in the thorough tier, a clean out-of-tree rebuild of the whole cone
+            clean = coq.build_props(pid, clean_cone=True)
+            obligations.append(("clean-rebuild:Props.%s" % pid, clean["ok"], clean["failed"] or clean["cmd"]))
         checker_cmd = r["cmd"] or checker_cmd
         allowed = coq.allowed_axioms()
         if not r["theorems"]:
@@ -111,8 +122,8 @@ def main():
                 obligations.append(("assumptions:" + th, not bad, ("not allowed: " + ", ".join(bad)) if bad else ("closed" if not axs else "allowed: " + ", ".join(axs))))
         elif not r["theorems"]:
             pass
-        if args.tier == "thorough" and r["ok"] and not os.environ.get("VERIF_SKIP_COQCHK"):
-            ok, out = coq.coqchk(pid, workdir=r.get("workdir"))
+        if args.tier == "thorough" and r["ok"] and clean and clean["ok"] and not os.environ.get("VERIF_SKIP_COQCHK"):
+            ok, out = coq.coqchk(pid, workdir=(clean or {}).get("workdir"))
             obligations.append(("coqchk:Props.%s" % pid, ok, " ".join(out.split())[-300:]))
 
     # 3. tie 2: correspondence + direct oracle
